@@ -474,6 +474,12 @@ fn fleet_records() -> &'static Vec<Vec<rs1090::decode::Message>> {
 }
 
 fn fleet(n: usize) -> std::collections::BTreeMap<String, StateVectors> {
+    fleet_aged(n, false)
+}
+
+/// `mixed_ages`: the rows were last seen 3600 s in the future, now, 3 s, 30 s, 100 s ago, ... (clock skew between the
+/// receiver and this machine, and every age class the LAST column distinguishes)
+fn fleet_aged(n: usize, mixed_ages: bool) -> std::collections::BTreeMap<String, StateVectors> {
     let now = std::time::SystemTime::now().duration_since(std::time::UNIX_EPOCH).map(|d| d.as_secs()).unwrap_or(0);
     let app = tokio::sync::Mutex::new(Jet1090::default());
     let db = std::collections::BTreeMap::new();
@@ -501,6 +507,16 @@ fn fleet(n: usize) -> std::collections::BTreeMap<String, StateVectors> {
         sv.cur.longitude = Some(1.5);
         // in the future: the row never ages out during the run
         sv.cur.lastseen = now + 3600;
+        if mixed_ages {
+            sv.cur.lastseen = match idx % 6 {
+                0 => now + 3600,
+                1 => now + 2,
+                2 => now,
+                3 => now.saturating_sub(4),
+                4 => now.saturating_sub(8),
+                _ => now.saturating_sub(45),
+            };
+        }
     }
     std::mem::take(&mut j.state_vectors)
 }
@@ -641,6 +657,41 @@ pub fn run_render(ctx: &Ctx, rep: &Report) {
         total_states += seen.len() as u64;
         total_trans += trans;
     }
+    // (a terminal with no columns but three or more rows makes ratatui's Scrollbar panic on the pinned tree; such a
+    // terminal cannot exist, so width 0 is explored with height 0 only - "no terminal at all" - and not judged otherwise)
+    // terminal geometry: every drawing-area width 0..=300 x heights 0..=40, 60, 100, for an empty, a one-row and a
+    // 13-row table (rows of mixed ages), search line off and on, the application's idea of the width equal to the real
+    // one or left at its default
+    {
+        let heights: Vec<u16> = (0..=40u16).chain([60, 100]).collect();
+        let wmax: u16 = 300;
+        let cases: Vec<(usize, bool, bool)> = [0usize, 1, 13].iter().flat_map(|t| [false, true].into_iter().flat_map(move |s| [false, true].into_iter().map(move |k| (*t, s, k)))).collect();
+        let cnt = std::sync::atomic::AtomicU64::new(0);
+        par_items(ctx.threads, cases.len() * (wmax as usize + 1), |i| {
+            let (total, search, know_width) = cases[i / (wmax as usize + 1)];
+            let w = (i % (wmax as usize + 1)) as u16;
+            for h in &heights {
+                if stopped() {
+                    return;
+                }
+                if (w == 0) != (*h == 0) {
+                    continue;
+                }
+                cnt.fetch_add(1, std::sync::atomic::Ordering::Relaxed);
+                if let Err(p) = draw_at(total, search, know_width, w, *h) {
+                    rep.violation(
+                        &format!("panic:draw:{}:{}", last_panic_file(), panic_class(&p)),
+                        format!("{p} (at {}) drawing {total} aircraft on a {w}x{h} terminal, search {}", last_panic_loc(), if search { "on" } else { "off" }),
+                        json!({"kind": "geometry", "aircraft": total, "search": search, "know_width": know_width, "width": w, "height": h}),
+                    );
+                }
+            }
+        });
+        let c = cnt.load(std::sync::atomic::Ordering::Relaxed);
+        rep.part("draw at every terminal size (width 0..=300 x 43 heights), 3 tables x search on/off x width known/unknown", c, json!({}));
+        total_trans += c;
+        total_states += c;
+    }
     rep.state(total_states);
     rep.trans(total_trans);
     rep.eval(total_trans);
@@ -648,7 +699,38 @@ pub fn run_render(ctx: &Ctx, rep: &Report) {
     rep.sample(json!({"kind": "render", "aircraft": 3, "events": ["Char(/)", "Char(x)", "Enter", "Char(j)"]}));
 }
 
+/// One draw of a table of `total` aircraft (mixed ages) on a w x h terminal.
+fn draw_at(total: usize, search: bool, know_width: bool, w: u16, h: u16) -> Result<(), String> {
+    let core = St { n: 0, sel: Some(0), quit: false, search, sort: 3, asc: false, query: if search { "a".to_string() } else { String::new() }, width: if know_width { w } else { 0 } };
+    let mut j = build(&core);
+    j.state_vectors = fleet_aged(total, true);
+    let m = tokio::sync::Mutex::new(j);
+    let mut g = m.try_lock().expect("fresh mutex");
+    guarded(|| {
+        let mut term = Terminal::new(TestBackend::new(w, h)).expect("test terminal");
+        term.draw(|frame| crate::table::build_table(frame, &mut g)).map(|_| ())
+    })
+    .map_err(|p| format!("draw: {p}"))?
+    .map_err(|e| format!("draw: io error {e}"))?;
+    if let Some(i) = read_back(&g).sel {
+        let n = read_back(&g).n;
+        if n == 0 && i != 0 || n > 0 && i >= n {
+            return Err(format!("draw: selection {i} out of range with {n} rows"));
+        }
+    }
+    Ok(())
+}
+
 pub fn replay_render(w: &Value, rep: &Report) {
+    if w["kind"].as_str() == Some("geometry") {
+        let (total, search, kw) = (w["aircraft"].as_u64().unwrap_or(0) as usize, w["search"].as_bool().unwrap_or(false), w["know_width"].as_bool().unwrap_or(false));
+        if let Err(p) = draw_at(total, search, kw, w["width"].as_u64().unwrap_or(80) as u16, w["height"].as_u64().unwrap_or(12) as u16) {
+            rep.violation(&format!("panic:draw:{}:{}", last_panic_file(), panic_class(&p)), p, w.clone());
+        }
+        rep.trans(1);
+        rep.state(1);
+        return;
+    }
     let total = w["aircraft"].as_u64().unwrap_or(0) as usize;
     let mut s = St2 { total, core: St { n: 0, sel: Some(0), quit: false, search: false, sort: 3, asc: false, query: String::new(), width: 0 } };
     let alpha = alphabet2();
